@@ -51,11 +51,32 @@ for f in sorted(os.listdir(os.path.join(root, "tinyflux"))):
                             if len(ts) == 1 and isinstance(ts[0], ast.Attribute) and isinstance(ts[0].value, ast.Name) \
                                     and ts[0].value.id == "self" and isinstance(v, ast.Name) and v.id in params:
                                 attrs.append(f"attr {st.name}.{v.id}={ts[0].attr}")
+def _fingerprint(fn):
+    a = fn.args
+    npar = len(a.posonlyargs) + len(a.args) + len(a.kwonlyargs)
+    attrs = sorted({n.attr for n in ast.walk(fn) if isinstance(n, ast.Attribute) and isinstance(n.value, ast.Name)
+                    and n.value.id == "self" and not any(isinstance(p_, ast.Call) and p_.func is n for p_ in ast.walk(fn))})
+    nst = sum(1 for n in ast.walk(fn) if isinstance(n, ast.stmt))
+    return f"{npar}|{','.join(attrs)}|{nst // 4}"
+
+
+sigs = []
+for f in sorted(os.listdir(os.path.join(root, "tinyflux"))):
+    if not f.endswith(".py"):
+        continue
+    tree = ast.parse(open(os.path.join(root, "tinyflux", f), encoding="utf-8").read())
+    for st in tree.body:
+        if isinstance(st, ast.ClassDef):
+            for m in st.body:
+                if isinstance(m, ast.FunctionDef) and m.name.startswith("_") and not m.name.startswith("__"):
+                    sigs.append(f"sig {st.name}.{m.name}={_fingerprint(m)}")
 here = os.path.dirname(os.path.dirname(os.path.abspath(__file__)))
 with open(os.path.join(here, "known_functions.txt"), "w") as fh:
     fh.write("# inventory of the validated tree (tools/make_inventory.py); see tfstatic/inline.py\n")
     for n in sorted(names):
         fh.write(n + "\n")
     for a in sorted(set(attrs)):
+        fh.write(a + "\n")
+    for a in sorted(set(sigs)):
         fh.write(a + "\n")
 print(len(names), "names")
